@@ -5,6 +5,8 @@
   Input lines (stdin), see harness/c11.cpp:
     T <self> <alloc> <nz> <p..> <nep> <z..> | <iteration order of every zone's endpoints>
     R <conn> <client> <fromzone> <objzone> <kind> <log> | s=<eps> k=<eps> p=<0|1> oz=<zone|-> ts=<0|1> old=<n> bad=<n>
+    D <conn> <from> <originzone> <objzone> <kind> | a=<0|1> s=<eps> p=<0|1> oz=<zone|-> ts=<0|1> old=<n> bad=<n>
+        one network step through the real MessageHandler; compared with the model's `deliver` (originOf, accept, relay)
   Output lines:
     MISMATCH line=<n> case=<k> op=<sent|skipped|persist|originzone|ts|old|bad|order> impl=<..> model=<..>
     SPECFAIL line=<n> case=<k> clause=<name>
@@ -105,6 +107,10 @@ structure DSt where
   masterCases : Nat := 0
   originZoneSet : Nat := 0
   twoConn : Nat := 0
+  dSteps : Nat := 0
+  dAccepted : Nat := 0
+  dDiscarded : Nat := 0
+  dOriginFromField : Nat := 0    -- FromZone taken from the originZone field (sender is a zone peer)
   seen : Std.HashSet UInt64 := {}
   nontrivial : Nat := 0
 
@@ -212,6 +218,59 @@ def handle (d : DSt) (n : Nat) (line : String) : IO DSt := do
         return d
       | _, _, _, _, _, _, _, _, _, _, _ => IO.println s!"BADLINE line={n}"; return d
     | _, _ => IO.println s!"BADLINE line={n}"; return d
+  | "D" :: rest =>
+    let (pre, post) := splitBar rest
+    match d.topo, pre with
+    | some t, [conn, frm, ozf, oz, _kind] =>
+      let connA := conn.toList.toArray
+      let ozf? : Option (Option Zone) := if ozf == "-" then some none else (parseNat? ozf).map some
+      let obsOz? : Option (Option Zone) := match kvOf post "oz" with
+        | some "-" => some none
+        | some s => (parseNat? s).map some
+        | none => none
+      match parseNat? frm, ozf?, parseNat? oz, (kvOf post "a").bind parseNat?, (kvOf post "s").bind parseList,
+            (kvOf post "p").bind parseBool?, obsOz?, kvOf post "ts", kvOf post "old", kvOf post "bad" with
+      | some frm, some ozf, some oz, some acc, some sent, some persist, some obsOz, some ts, some old, some bad =>
+        if connA.size != t.zoneOf.size then
+          IO.println s!"BADLINE line={n}"; return d
+        let T := t.topo (fun _ e => match connA[e]? with | some c => c == '1' || c == '2' | none => false)
+        let self := t.self
+        let msg : Msg := ⟨self, frm, ozf⟩
+        -- the model's `deliver` on a network whose only in-flight message is `msg`
+        let net : Net := { inflight := [msg], processed := [], accepted := [], persisted := [], discarded := [] }
+        let net' := deliver T oz net 0
+        let mAcc := net'.processed.length
+        let mSent := sortNat (net'.inflight.map (·.to))
+        let mPersist := !net'.persisted.isEmpty
+        let mOz : Option Zone := match net'.inflight with | m' :: _ => m'.originZone | [] => (if mAcc == 1 then (originOf T msg).fromZone else none)
+        let mut d := { d with dSteps := d.dSteps + 1, steps := d.steps + 1 }
+        if mAcc != acc then
+          IO.println s!"MISMATCH line={n} case={d.caseNo} op=accept impl={acc} model={mAcc}"
+          d := { d with mismatches := d.mismatches + 1 }
+        if mSent != sent then
+          IO.println s!"MISMATCH line={n} case={d.caseNo} op=step-sent impl={showList sent} model={showList mSent}"
+          d := { d with mismatches := d.mismatches + 1 }
+        if mPersist != persist then
+          IO.println s!"MISMATCH line={n} case={d.caseNo} op=step-persist impl={showBool persist} model={showBool mPersist}"
+          d := { d with mismatches := d.mismatches + 1 }
+        if mOz != obsOz then
+          IO.println s!"MISMATCH line={n} case={d.caseNo} op=step-originzone impl={showOpt obsOz} model={showOpt mOz}"
+          d := { d with mismatches := d.mismatches + 1 }
+        if ts != "1" || old != "0" || bad != "0" then
+          IO.println s!"MISMATCH line={n} case={d.caseNo} op=step-queue impl=ts:{ts},old:{old},bad:{bad} model=ts:1,old:0,bad:0"
+          d := { d with mismatches := d.mismatches + 1 }
+        -- the cluster-wide sentences on this step: an accepted event is never handed back to the sender or its zone
+        if acc == 1 && sent.any (fun e => e == frm || (T.zoneOf frm != T.zoneOf self && T.zoneOf e == T.zoneOf frm)) then
+          IO.println s!"SPECFAIL line={n} case={d.caseNo} clause=second_hop_no_echo"
+          d := { d with specfails := d.specfails + 1 }
+        d := { d with dAccepted := d.dAccepted + (if acc == 1 then 1 else 0), dDiscarded := d.dDiscarded + (if acc == 1 then 0 else 1),
+                      dOriginFromField := d.dOriginFromField + (if T.zoneOf frm == T.zoneOf self && ozf.isSome then 1 else 0) }
+        let key := hash (d.topoTxt ++ "|D " ++ " ".intercalate pre)
+        if acc == 1 && !sent.isEmpty && !d.seen.contains key then
+          d := { d with seen := d.seen.insert key, nontrivial := d.nontrivial + 1 }
+        return d
+      | _, _, _, _, _, _, _, _, _, _ => IO.println s!"BADLINE line={n}"; return d
+    | _, _ => IO.println s!"BADLINE line={n}"; return d
   | _ => IO.println s!"BADLINE line={n}"; return d
 
 /-! ### network simulation (`sim`) -/
@@ -316,4 +375,4 @@ def main (args : List String) : IO Unit := do
     IO.println s!"SIMSTATS topologies={st.topos} runs={st.runs} deliveries={st.deliveries} fails={st.fails} complete_checked={st.complete} incomplete={st.incomplete} beyond_scope_topologies={st.beyondScope} beyond_scope_duplicates={st.beyondScopeDups} max_processed={st.maxProcessed} nontrivial={st.nontrivial}"
   | _ =>
     let d ← foldLines stdin handle ({} : DSt)
-    IO.println s!"STATS cases={d.caseNo} steps={d.steps} nontrivial={d.nontrivial} sends={d.sends} skips={d.skips} persisted={d.persisted} no_target={d.noTarget} b_self={d.bSelf} b_disconnected={d.bDisc} b_second_endpoint={d.bRelayed} b_origin_client={d.bClient} b_origin_zone={d.bFromZone} b_not_master={d.bMaster} b_sent={d.bSent} unrelated_zone={d.unrelated} global_object={d.globalObj} as_master={d.masterCases} origin_zone_set={d.originZoneSet} newest_of_two={d.twoConn} mismatches={d.mismatches} specfails={d.specfails}"
+    IO.println s!"STATS cases={d.caseNo} steps={d.steps} nontrivial={d.nontrivial} sends={d.sends} skips={d.skips} persisted={d.persisted} no_target={d.noTarget} b_self={d.bSelf} b_disconnected={d.bDisc} b_second_endpoint={d.bRelayed} b_origin_client={d.bClient} b_origin_zone={d.bFromZone} b_not_master={d.bMaster} b_sent={d.bSent} unrelated_zone={d.unrelated} global_object={d.globalObj} as_master={d.masterCases} origin_zone_set={d.originZoneSet} newest_of_two={d.twoConn} net_steps={d.dSteps} net_accepted={d.dAccepted} net_discarded={d.dDiscarded} net_origin_from_field={d.dOriginFromField} mismatches={d.mismatches} specfails={d.specfails}"
